@@ -18,6 +18,10 @@ import (
 type logFile struct {
 	f *os.File
 
+	// readOnly is set for files opened by openLogFileForRead. Their descriptor
+	// can't (and must not) be used to modify the file.
+	readOnly bool
+
 	empty   bool   // Valid for all logFiles
 	firstID uint64 // Valid for all logFiles
 	lastID  uint64 // Only valid for logFiles opened for appending
@@ -86,7 +90,7 @@ func openLogFileForRead(path string) (*logFile, error) {
 		return nil, err
 	}
 
-	lf := &logFile{f: f, empty: true}
+	lf := &logFile{f: f, empty: true, readOnly: true}
 
 	// Read the first record to determine the first record ID
 	// Not the most efficient, but it makes the code cleaner.
@@ -294,6 +298,16 @@ func (lf *logFile) Close() {
 func (lf *logFile) readRecord() (r Record, err error) {
 	offset := lf.getOffset()
 	r, err = deserializeRecord(lf.f)
+	if err == io.ErrUnexpectedEOF && lf.readOnly {
+		// An incomplete record at the end of a file we only read: treat it as
+		// the end of the file, but leave the repair to openLogFile. Truncating
+		// through a read-only descriptor fails (EINVAL), which used to make
+		// OpenFSLog fail forever if the first record of a file was torn.
+		if _, err = lf.f.Seek(offset, os.SEEK_SET); err != nil {
+			return
+		}
+		return r, io.EOF
+	}
 	if err == io.ErrUnexpectedEOF {
 		log.Errorf("Hit unexpected EOF reading from wal at offset %d. Truncating.", offset)
 
